@@ -446,7 +446,8 @@ func (u *Unit) gather(st *State, t types.Type, r Term) Term {
 			continue
 		}
 		if _, ok := ft.Underlying().(*types.Array); ok {
-			panic(unsupported("array-valued struct field " + s.Field(i).Name()))
+			u.note("array-valued struct field " + types.TypeString(t, u.eng.qual) + "." + s.Field(i).Name() + " is not modelled")
+			continue
 		}
 		comp, cs, _ := u.fieldComp(t, i)
 		fs = append(fs, u.loadLoc(st, Loc{Kind: 1, Comp: comp, CSort: cs, Ref: r, T: ft}))
@@ -459,6 +460,9 @@ func (u *Unit) scatter(st *State, t types.Type, r Term, v Term) {
 	s := t.Underlying().(*types.Struct)
 	for i := 0; i < s.NumFields(); i++ {
 		ft := s.Field(i).Type()
+		if _, ok := ft.Underlying().(*types.Array); ok {
+			continue
+		}
 		fv := u.structField(v, t, i)
 		if _, ok := isStruct(ft); ok {
 			u.scatter(st, ft, u.subRef(t, i, r), fv)
